@@ -31,7 +31,7 @@ theorem tgtOf_arrowsOf (n : Nat) (ρ : Nat → Inf.Ty) {i : Nat} (h : i < n) :
 theorem nodeRule_of_eqns {jt : JetTypes} {ρ : Nat → Inf.Ty} {n i : Nat} {nd : Node} {f : Nat}
     {es : List Eqn} {f' : Nat}
     (hn : nodeEqns jt i nd f = some (es, f')) (hs : ∀ e ∈ es, e.1.eval ρ = e.2.eval ρ)
-    (hch : ∀ c ∈ nd.children, c < n) (hok : nodeOK i nd = true) :
+    (hch : ∀ c ∈ nd.children, c < n) (hok : shapeOK nd = true) :
     NodeRule jt (arrowsOf n ρ) (tyOfInf (ρ (2 * i))) (tyOfInf (ρ (2 * i + 1))) nd := by
   cases nd with
   | iden =>
@@ -132,7 +132,7 @@ theorem nodeRule_of_eqns {jt : JetTypes} {ρ : Nat → Inf.Ty} {n i : Nat} {nd :
     · rw [h3]; rfl
   | disconnect x oy =>
     cases oy with
-    | none => simp [nodeOK] at hok
+    | none => simp [shapeOK] at hok
     | some y =>
       simp only [nodeEqns, Option.some.injEq, Prod.mk.injEq] at hn
       obtain ⟨rfl, rfl⟩ := hn
@@ -155,7 +155,7 @@ theorem nodeRule_of_eqns {jt : JetTypes} {ρ : Nat → Inf.Ty} {n i : Nat} {nd :
       Inf.Tm.eval] at hs
     obtain ⟨h1, h2⟩ := hs
     refine ⟨by rw [h1]; rfl, by rw [h2, tyOfInf_tmOfTy], ?_⟩
-    simpa [nodeOK, Node.children] using hok
+    simpa [shapeOK] using hok
   | jet name =>
     simp only [nodeEqns, Option.map_eq_some_iff, Prod.mk.injEq] at hn
     obtain ⟨⟨s, t⟩, hj, rfl, rfl⟩ := hn
@@ -218,6 +218,14 @@ theorem planOK_pos {p : Plan} (hok : planOK p = true) : 0 < p.size := by
   simp only [planOK, Bool.and_eq_true, bne_iff_ne, ne_eq] at hok
   omega
 
+theorem nodeOK_shape {i : Nat} {nd : Node} (h : nodeOK i nd = true) : shapeOK nd = true := by
+  simp only [nodeOK, Bool.and_eq_true] at h
+  cases nd with
+  | disconnect a oy => cases oy <;> simp_all [shapeOK]
+  | word n bits => simpa [shapeOK] using h.2
+  | hidden hh => simp at h
+  | _ => rfl
+
 theorem nodeOK_children {i : Nat} {nd : Node} (h : nodeOK i nd = true) : ∀ c ∈ nd.children, c < i := by
   simp only [nodeOK, Bool.and_eq_true, List.all_eq_true, decide_eq_true_eq] at h
   exact h.1
@@ -264,7 +272,7 @@ theorem infer_rules {jt : JetTypes} {p : Plan} {program : Bool} {ar : Arrows}
     rw [Nat.zero_add] at h0
     have hnok := planOK_node hok hnd
     rw [srcOf_arrowsOf _ _ hi, tgtOf_arrowsOf _ _ hi]
-    refine nodeRule_of_eqns h0 ?_ ?_ hnok
+    refine nodeRule_of_eqns h0 ?_ ?_ (nodeOK_shape hnok)
     · intro e he
       apply hsol
       rw [← hE]
